@@ -252,6 +252,7 @@ func (svc *service) writeMessage(msg message.Message) (int, error) {
 		wrap bool
 	)
 
+	verifMark(verifMarkWrite, svc)
 	if svc.out == nil {
 		return 0, ErrBufferNotReady
 	}
